@@ -272,7 +272,7 @@ fn main() {
             let seed = parse_u64(&arg_val(&args, "--seed").unwrap_or_else(|| "20260926".into()));
             let threads = parse_u64(&arg_val(&args, "--threads").unwrap_or_else(|| "3".into())) as usize;
             let ops = parse_u64(&arg_val(&args, "--ops").unwrap_or_else(|| "4".into())) as usize;
-            match c07::race(seed, threads, ops) {
+            match c07::race(seed, threads, ops, args.iter().any(|a| a == "--fresh")) {
                 Ok((d, _)) => {
                     println!("RACE-OK digest={d:016x}");
                     0
